@@ -896,6 +896,48 @@ func init() {
 	}
 	intrinsics["(*compress/gzip.Writer).Flush"] = noop
 
+	// ------------------------------------------------------------ sort (reflection-free models)
+	sortSlice := func(e *Engine, fr *frame, fn *ssa.Function, args []Value) Value {
+		x, ok := args[0].(Iface)
+		if !ok {
+			panic(unsupported("sort.Slice argument"))
+		}
+		sl, ok := x.V.(Slice)
+		if !ok {
+			panic(unsupported("sort.Slice of a non-slice"))
+		}
+		less := args[1]
+		// stable insertion sort driven by the real less closure (elements are swapped in place)
+		for i := 1; i < len(sl.V); i++ {
+			for j := i; j > 0; j-- {
+				r := e.callValue(fr, less, []Value{e.st.Const(64, uint64(j)), e.st.Const(64, uint64(j-1))})
+				if !e.branch(r.(*Term)) {
+					break
+				}
+				sl.V[j], sl.V[j-1] = sl.V[j-1], sl.V[j]
+			}
+		}
+		return nil
+	}
+	intrinsics["sort.Slice"] = sortSlice
+	intrinsics["sort.SliceStable"] = sortSlice
+	intrinsics["sort.Strings"] = func(e *Engine, fr *frame, fn *ssa.Function, args []Value) Value {
+		sl := args[0].(Slice)
+		for i := 1; i < len(sl.V); i++ {
+			for j := i; j > 0; j-- {
+				a, b := sl.V[j].(Str), sl.V[j-1].(Str)
+				if a.IsSym() || b.IsSym() {
+					panic(unsupported("sort.Strings on symbolic strings"))
+				}
+				if !(a.S < b.S) {
+					break
+				}
+				sl.V[j], sl.V[j-1] = sl.V[j-1], sl.V[j]
+			}
+		}
+		return nil
+	}
+
 	// ------------------------------------------------------------ crypto/rand
 	intrinsics["crypto/rand.Read"] = func(e *Engine, fr *frame, fn *ssa.Function, args []Value) Value {
 		b := args[0].(Slice)
